@@ -31,8 +31,10 @@ Theorems
    unconditional `Props.C02.AttestOnce`, so `Props.C02.no_equivocation` applies verbatim (`guardedPlayerM_no_equivocation`);
    on runs that meet the check the guarded player IS PlayerM (`guard_agrees`).
 3. `player_votes_justified_partial`: see the section below.
-4. `next_own_cert_not_guaranteed` (negative, FULL): PlayerM — and the real player — can cert-vote a value and then next-vote ⊥
-   in the same period although nothing was overwritten: the abstract rule `RNextOwnCert` is NOT a property of the code.
+4. `player_next_own_cert_partial`: `RNextOwnCert` without excuse for every next-type vote, under the additional run-level
+   hypothesis `CommStable` (the staged value's assembler survives every trim while the player stays in the period) — the
+   invariant that the code before repo commit b6f661fbce violated (finding of this file) and that is not yet proved for the
+   fixed handler (`CommStableStatement`).
 -/
 import AlgoVerif.Lemmas.PlayerAttestOnce
 import AlgoVerif.Props.C02
@@ -388,7 +390,7 @@ theorem guardedPlayerM_no_equivocation (P : Params) (good : Nat → Nat → Nat 
     `runOK_prefix` / `runOKA_prefix`: all of this applies to every prefix of a run, i.e. "delivered so far".
 NOT done: the enter / see / commit *events* of the projection (only the facts they need, (c)); the arithmetic lift from
 a verifying bundle (`Bundle.verify`: distinct senders, weight ≥ step threshold) to the abstract `Q` (one threshold `T`,
-weights summed over a fixed node list); `RSoftStart`, `RNextVal`, `RNextOwnCert`, `REnterGrow` (the last is `HStep.lex`
+weights summed over a fixed node list); `RSoftStart`, `RNextVal`, `REnterGrow`; `RNextOwnCert` only under `CommStable` (last section) (the last is `HStep.lex`
 + `Entered`, not projected). -/
 
 section Abstract
@@ -794,42 +796,78 @@ example : (AgreementSvc.run (playerSvc exP (some exInit)) true (AgreementSvc.ini
 
 end Example
 
-/-! ### a local rule PlayerM does NOT guarantee: `RNextOwnCert`
+/-! ### `RNextOwnCert`: next-type votes after the own cert vote
 
-`proposalStore.handle` (softThreshold / certThreshold) returns `committableEvent` *without* recording
-`store.Relevant[te.Period] = e.Proposal` when the payload is already assembled.  If the assembler of that value is only
-referenced through `Relevant[Period + 1]` (a re-proposal for the next period arrived early), a later proposal-vote of
-period + 1 with a better credential replaces that entry and `store.trim` drops the assembler.  The player has cert-voted the
-value, `stagedValue(...).Committable` is now false, and at the deadline it next-votes what the (empty) cache says: ⊥.
-The run below meets every hypothesis of this file (`EnvOK`: nothing is overwritten), and the REAL rootRouter + player
-behave identically (PlayerDrive replay:
-`reset 5 5 6 2 5 7 1 2000 4000 4000 6000 2000 300000 8 5 0 1; pv 1 0 9 5 1 51 3 0 -; pl 1 0 51 5 0; v 1 0 5 0 1 2 3 51;
-v 1 0 5 0 1 3 4 51; pv 1 0 8 5 1 1052 1 0 -; t 0; t 0` ⇒ `attest 5 0 2 51` … `attest 5 0 3 0`). -/
+History.  Before repo commit b6f661fbce `proposalStore.handle` (softThreshold / certThreshold) returned `committableEvent`
+*without* recording `store.Relevant[te.Period] = e.Proposal` when the payload was already assembled; an assembler referenced
+only through `Relevant[Period + 1]` was then dropped by `store.trim` as soon as a better period + 1 proposal-vote arrived, and
+the player — having cert-voted the value — next-voted ⊥ (run `dropEvents` below; found with this file, reproduced on the real
+player and as a two-block commit by NetDrive).  The model now has the fixed handler, and `dropEvents` yields `next 51`.
+
+`player_next_own_cert_partial`: under `EnvOK`, `PeriodsFit` and `CommStable`, every next-type vote (next s, late, redo,
+down) of the projected history satisfies `RNextOwnCert` WITHOUT excuse: it carries the value of the node's own cert vote
+of the same period.  Proved from: a cert vote is only cast for the committable value (`commVal`: Staging with its payload in
+the round's store, on all three trigger paths); `issueNextVote` / `issueFastVote` vote the committable value whenever one
+exists (redo / down only when none exists).
+MISSING (`CommStableStatement`, not proved): `CommStable` itself — while the player stays in (r, p), the assembler of
+Staging(r, p) survives every `trim`.  Intended invariant (true of the fixed code, false before): a threshold that sets
+Staging(p) also sets Relevant[p] to it; Relevant[p] is only deleted by `newPeriod` for p + 1 < target (then the player leaves
+p in the same `handle`); `proposalTracker` filters later period-p proposal-votes once Staging ≠ ⊥, so Relevant[p] is not
+reassigned; `trim` keeps every Relevant value's assembler and only filters authenticators.  It needs a third pass over all
+tree operations (as `QRoot` / `GRoot`), relational in the player's (round, period); `CommStable` is evaluated (decidable) on
+the example runs below, and the hypothesis fails on `dropEvents` under the pre-fix handler. -/
 
 section NextOwnCert
 open AlgoVerif.Spec
 open Props.C03 (exP exGood exInit)
 
+/-- **player_next_own_cert_partial.** -/
+theorem player_next_own_cert_partial (P : Params) (good : Nat → Nat → Nat → Vote → Bool) (hg : GoodSpec good)
+    (σ₀ : State) (hI : NodeInv P good σ₀) (es : List Player.Event) (henv : EnvOK P good σ₀ es)
+    (hfit : σ₀.pl.period + 1 < 18446744073709551616) (hpf : PeriodsFit (snaps P σ₀ es))
+    (hcs : CommStable (snaps P σ₀ es))
+    (Pabs : AgreementAbs.Params) (n r : Nat) {post pre : List AgreementAbs.Ev} {v : AgreementAbs.Vote}
+    (hsplit : projVotes n r (allAtts P σ₀ es) = post ++ AgreementAbs.Ev.vote v :: pre)
+    (hnext : v.s.isNext = true) : AgreementAbs.RNextOwnCert false Pabs pre v := by
+  have hnac := allAtts_nextAfterCert (ptok_spec P good) ptok_set hg es σ₀ hI henv.run henv.runA hfit hpf hcs
+  have hpos := allAtts_step_pos (ptok_spec P good) ptok_set hg es σ₀ hI henv.run henv.runA
+  have hpre := proj_pre hnac hsplit
+  refine Or.inl ?_
+  intro v' hv' _ hp hcert
+  obtain ⟨b', hb', b, hb, e1, e2, e3, e4, hn⟩ := hpre v' hv'
+  subst e3; subst e4
+  have hb2 : b'.s = 2 := (absStep_cert b'.s).mp hcert
+  have h12 := (absStep_isNext b.s).mp hnext
+  have := hpos b hb
+  show absVal b'.v = absVal b.v
+  rw [hn (e1.trans e2.symm) hp hb2 (by omega)]
+
+/-- what remains to be proved about the (fixed) code -/
+def CommStableStatement : Prop :=
+  ∀ (P : Params) (good : Nat → Nat → Nat → Vote → Bool), GoodSpec good → ∀ (σ₀ : State), Fresh σ₀ →
+    ∀ es : List Player.Event, EnvOK P good σ₀ es → σ₀.pl.period + 1 < 18446744073709551616 →
+      PeriodsFit (snaps P σ₀ es) → CommStable (snaps P σ₀ es)
+
 /-- period-1 re-proposal of 51 (credential 3); payload 51; soft quorum for 51 in period 0 (⇒ cert vote 51); period-1
-proposal 1052 with the better credential 1 (⇒ assembler of 51 trimmed); filter timeout; deadline timeout (⇒ next vote ⊥) -/
+proposal 1052 with the better credential 1 (before the fix: assembler of 51 trimmed); filter timeout; deadline timeout
+(before the fix: next vote ⊥; now: next vote 51); two fast timeouts (late vote 51); two timeouts (next vote 51 at Step 4) -/
 def dropEvents : List Player.Event :=
   [.pvote true 0 ⟨9, 5, 1, 51, 3⟩ 0 none, .payload true 0 ⟨51, 5⟩ false,
    .vote true 0 5 0 1 ⟨2, 3, 51⟩, .vote true 0 5 0 1 ⟨3, 4, 51⟩,
-   .pvote true 0 ⟨8, 5, 1, 1052, 1⟩ 0 none, .timeout 0, .timeout 0]
+   .pvote true 0 ⟨8, 5, 1, 1052, 1⟩ 0 none, .timeout 0, .timeout 0, .fastTimeout 0, .fastTimeout 0, .timeout 0, .timeout 0]
 
-def onePabs : AgreementAbs.Params := ⟨[7], fun _ => 1, fun _ => true, 3⟩
+/-- the old counterexample run meets every hypothesis of `player_next_own_cert_partial` … -/
+example : EnvOK exP exGood exInit dropEvents ∧ PeriodsFit (snaps exP exInit dropEvents) ∧
+    CommStable (snaps exP exInit dropEvents) :=
+  ⟨envOKb_sound exP exGood exInit dropEvents (by decide), by decide, by decide⟩
 
-/-- **next_own_cert_not_guaranteed** (FULL, negative): a run of PlayerM from a fresh state that meets all environment
-hypotheses, in which the node cert-votes 51 and then next-votes ⊥ in the same (round 5, period 0); its projection violates
-the abstract rule `RNextOwnCert` (lenient form: no `Conflict1` excuse is available). -/
-theorem next_own_cert_not_guaranteed :
-    EnvOK exP exGood exInit dropEvents ∧
-    (allAtts exP exInit dropEvents).map (fun a => (a.r, a.p, a.s, a.v)) = [(5, 0, 2, 51), (5, 0, 3, 0)] ∧
-    ∃ (v : AgreementAbs.Vote) (pre : List AgreementAbs.Ev),
-      projVotes 7 5 (allAtts exP exInit dropEvents) = [] ++ AgreementAbs.Ev.vote v :: pre ∧
-      ¬ AgreementAbs.RNextOwnCert true onePabs pre v := by
-  refine ⟨envOKb_sound exP exGood exInit dropEvents (by decide), by decide,
-    ⟨7, 0, .next 0, none⟩, [.vote ⟨7, 0, .cert, some 51⟩], by decide, by decide⟩
+/-- … and now yields next-type votes for the cert-voted value 51 (corpus/player/trim-drops-staged-payload.ops replays the
+same events on the real player) -/
+example : (allAtts exP exInit dropEvents).map (fun a => (a.r, a.p, a.s, a.v)) =
+    [(5, 0, 2, 51), (5, 0, 3, 51), (5, 0, 253, 51), (5, 0, 4, 51)] := by decide
+
+/-- so does the run of the first example -/
+example : PeriodsFit (snaps exP exInit exEvents) ∧ CommStable (snaps exP exInit exEvents) := ⟨by decide, by decide⟩
 
 end NextOwnCert
 
